@@ -33,6 +33,11 @@ class TableTie:
         word = answer.split(" ", 1)[0]
         if word == "same":
             rep.count("table:same")
+            if answer.endswith("gwf=0"):
+                # the decidable hypothesis `Table.gwf` of the construction theorems fails for a grammar the real builder
+                # produced: the theorems of Props/C04Construction.lean do not apply to it (not a violation by itself)
+                rep.count("table:gwf=0")
+                rep.notes.append("Table.gwf fails on a real grammar: " + repr(getattr(case, "text", ""))[:200])
         elif word in ("diff", "model"):
             rep.count("table:" + " ".join(answer.split(" ")[:2]))
             self.diffs.append((case, answer))
